@@ -18,7 +18,7 @@ func TestRegressFirstPacketTimestampZero(t *testing.T) {
 	ic, _ := f.NewInterceptor("")
 	sink := &kit.RTCPSink{}
 	ic.BindRTCPWriter(sink)
-	defer func() { _ = ic.Close() }()
+	defer kit.BoundedClose(ic.Close)
 	w := ic.BindLocalStream(&interceptor.StreamInfo{SSRC: 1, ClockRate: 90000}, &kit.RTPSink{})
 	_, _ = w.Write(&rtp.Header{Version: 2, SSRC: 1, SequenceNumber: 1, Timestamp: 0}, []byte{1}, nil)
 	clk.set(epoch.Add(time.Second))
